@@ -183,6 +183,40 @@ def run_gt_block(inst):
             if len(viols) > 5:
                 break
         return Result(n=n, nontrivial=nontriv, violations=viols[:5], outcome=("slice", p))
+    if kind == "hist":
+        # every history of observations and state restores on ONE object, against the plain model "the object is
+        # the genotype last restored into it"; observers must not change what later observers report
+        _, init, depth = inst
+        T = [(0, 0), (0, 1), (1, 1), (0, 2), (1, 2), (0, 0, 1), (0, 1, 2), (1, 1, 1)]
+        ops = ["I", "H", "G"] + [("S", t) for t in T if t != T[init]] + ["C"]
+        for seq in itertools.product(ops, repeat=depth):
+            if not any(isinstance(o, tuple) for o in seq):
+                continue
+            g = Genotype(list(T[init]))
+            model = T[init]
+            n += 1
+            for o in seq:
+                if o == "I":
+                    g.get_index()
+                elif o == "H":
+                    hash(g)
+                elif o == "G":
+                    g.__getstate__()
+                elif o == "C":
+                    g = copy.deepcopy(g)
+                else:
+                    g.__setstate__((closed_index(o[1]), len(o[1])))
+                    model = o[1]
+            nontriv += 1
+            fresh = Genotype(list(model))
+            want = closed_index(model)
+            got = (g.get_index(), tuple(g.__getstate__()), tuple(sorted(g.as_vector())), hash(g) == hash(fresh), g == fresh, str(g))
+            exp = (want, (want, len(model)), model, True, True, "/".join(map(str, model)))
+            if got != exp:
+                viols.append(_v("gt:history", f"after {[T[init]] + list(seq)} the object reports (index, state, alleles, hash equal, ==, str) = {got}, the genotype restored last gives {exp}"))
+                if len(viols) > 3:
+                    break
+        return Result(n=n, nontrivial=nontriv, violations=viols[:3], outcome=("hist", depth))
     if kind == "limits":
         # beyond the supported limits the constructor must refuse, not wrap around
         for bad in ([0] * 15, [0, 16], [16], [0] * 16, [17, 3]):
@@ -203,6 +237,9 @@ def run_gt_block(inst):
 def gt_space(tier):
     def gen():
         yield ("limits",)
+        for init in range(8):
+            for depth in (1, 2, 3, 4) + ((5,) if tier == "thorough" else ()):
+                yield ("hist", init, depth)
         for p in range(1, 7):
             yield ("enum", p, 6)
         for p1 in range(1, 7):
